@@ -1,3 +1,4 @@
 /- Aggregate: C17 theorems (C17.lean) and the hex-digit table tie (C10Gen.lean). -/
 import AJ.Props.C17
 import AJ.Props.C10Gen
+import AJ.Props.SlotCor
